@@ -65,14 +65,14 @@ STACK = ["Z", "X", "Y"]
 INPUTS = ["a", "b"]
 
 
-def rand_pda(rng, names="plain", max_states=3, max_stack=3, max_trans=6):
+def rand_pda(rng, names="plain", max_states=3, max_stack=3, max_trans=6, profile=None):
     ns, nk, ni = rng.randint(1, max_states), rng.randint(1, max_stack), rng.randint(1, 2)
     states, stack, inputs = STATES[:ns], STACK[:nk], INPUTS[:ni]
     if names == "adv":
         pool = ["#STARTTOFINAL#", "#ENDTOFINAL#", "#STARTEMPTYS#", "#ENDEMPTYS#", "q0"]
         states = rng.sample(pool, ns)
         stack = rng.sample(["#BOTTOMTOFINAL#", "#BOTTOMEMPTYS#", "Z", "#BOTTOMTOFINAL#0"], nk)
-    profile = rng.choice(["plain", "eps", "grow", "nofinal", "pop"])
+    profile = profile or rng.choice(["plain", "eps", "grow", "nofinal", "pop"])
     trans = []
     for _ in range(rng.randint(1, max_trans)):
         q, r = rng.choice(states), rng.choice(states)
@@ -80,6 +80,9 @@ def rand_pda(rng, names="plain", max_states=3, max_stack=3, max_trans=6):
         a = None if rng.random() < {"eps": 0.6, "grow": 0.5}.get(profile, 0.25) else rng.choice(inputs)
         k = rng.choice({"grow": [1, 2, 2, 3], "pop": [0, 0, 1]}.get(profile, [0, 0, 1, 1, 2, 3]))
         push = [rng.choice(stack) for _ in range(k)]
+        if profile == "falike" and rng.random() < 0.8:      # keeps the stack as it is: behaves like a finite automaton, rich final-state language
+            a = rng.choice(inputs)
+            push = [A]
         t = [q, a, A, r, push]
         if t not in trans:
             trans.append(t)
@@ -96,7 +99,7 @@ def rand_pda(rng, names="plain", max_states=3, max_stack=3, max_trans=6):
                 t = [r, rng.choice([None] + inputs), X, rng.choice(states), []]
                 if t not in trans:
                     trans.append(t)
-    finals = [] if profile == "nofinal" else rng.sample(states, rng.randint(0, ns))
+    finals = [] if profile == "nofinal" else rng.sample(states, rng.randint(1 if profile == "falike" else 0, ns))
     return {"states": states, "inputs": inputs, "stack": stack, "trans": trans, "start": states[0], "z0": stack[0],
             "finals": finals, "profile": profile, "names": names}
 
